@@ -17,6 +17,10 @@ MULTILINE = [
     "class K:\n    def m(self):\n        exec(\n            code)\n",
     "import os\nos.chmod(\n    '/etc/passwd',\n    0o777)\nos.system('ls'\n          ' -l')\n",
     "s = '''multi\nline string /tmp/x\n'''\npassword = 'pw'\n",
+    # decorated definitions: the node is positioned at `def`, the decorators precede it (seeded change C10-m4 moved the reported line to the first decorator)
+    "import functools\n\n@functools.wraps(f)\n@other\ndef login(user,\n          password='hunter2'):\n    return user\n",
+    "import ssl\nclass K:\n    @staticmethod\n    def connect(host, version=ssl.PROTOCOL_SSLv3,\n                token='tok'):\n        pass\n\n    @property\n    def p(self, password='x'): return 1\n",
+    "@decorate(\n    option=1,\n)\nasync def handler(request, secret='s3cret'):\n    try:\n        pass\n    except Exception:\n        pass\n",
 ]
 
 
